@@ -59,15 +59,23 @@ fn maps() -> Vec<Map> {
     out
 }
 
+/// the two assignable values deliberately coincide with what some pushed maps hold (value 0 is the
+/// scalar that maps give `x`, value 1 the object that maps give `y`), so that "assigning what is
+/// already visible" occurs -- and differ from what the maps give the other name, which keeps every
+/// source of a value distinguishable through that name
 fn assign_value(i: usize) -> RVal {
     if i == 0 {
-        RVal::Str("g".into())
+        RVal::Int(1)
     } else {
-        obj(70)
+        obj(6)
     }
 }
 fn counter_value(i: usize) -> RVal {
-    RVal::Int(10 + i as i64)
+    if i == 0 {
+        RVal::Int(1)
+    } else {
+        RVal::Int(11)
+    }
 }
 
 pub fn all_ops() -> Vec<Op> {
